@@ -24,22 +24,33 @@
 (* engine.QueryRunner.RunStatement / aggregate (Group, (+)),               *)
 (* Manager.performWriteout -> FlowLog.Rotate -> DBWriter.Write (Writeout). *)
 (*                                                                         *)
-(* Not modelled (not observable through what the statement talks about):   *)
-(* idle flow entries kept with zero counters after a rotation, the         *)
-(* three-point lock and the local packet buffer (properties C20, C21, C23).*)
+(* The memory of a capture is more than its counters: a rotation keeps the *)
+(* entry of every conversation that had traffic, with zero counters, for   *)
+(* one more interval (an entry still idle at the next rotation is dropped).*)
+(* Such an idle entry is invisible to queries but it remembers which side  *)
+(* of the conversation is the client: a packet that carries no orientation *)
+(* of its own (kind "cont": a TCP segment without SYN between two          *)
+(* ephemeral ports) is added to the entry of its conversation if there is  *)
+(* one - in either orientation - and only otherwise classified by its      *)
+(* ports (Guess: the smaller port is taken for the server's).  A live      *)
+(* query therefore must leave the idle entries alone as well, or the NEXT  *)
+(* write-out stores the conversation under another key.                    *)
 (*                                                                         *)
-(* Switch:                                                                 *)
-(*   LiveResets  FALSE = what the property demands.  TRUE = a deviation    *)
-(*               (the live snapshot taken with the rotating variant of     *)
-(*               aggregation, which resets the counters) used only by the  *)
-(*               negative run that must violate LiveChangesNothing/TwinOK. *)
+(* Not modelled (not observable through what the statement talks about):   *)
+(* the three-point lock and the local packet buffer (C20, C21, C23).       *)
+(*                                                                         *)
+(* Switches (FALSE = what the property demands; TRUE = a deviation used    *)
+(* only by the negative runs, which must violate LiveChangesNothing/TwinOK)*)
+(*   LiveResets     the live snapshot taken with the rotating variant of   *)
+(*                  aggregation, which resets the counters                 *)
+(*   LiveDropsIdle  the live snapshot frees the idle entries it skips      *)
 (***************************************************************************)
 EXTENDS Cond
 
 CONSTANTS Ifaces,      \* interface names with a running capture
-          PktSet,      \* packets the environment may deliver: [i, c, v, d, sz]
+          PktSet,      \* packets the environment may deliver: [i, c, v, d, sz, k]
           QuerySet,    \* live queries that may be asked: [ifs, attrs, cond]
-          LiveResets
+          LiveResets, LiveDropsIdle
 
 VARIABLES log,    \* iface -> (<<flow id, source port variant>> -> counters)   in memory
           db,     \* iface -> sequence of blocks (flow id -> counters)          on disk
@@ -67,11 +78,32 @@ SumF(S, g) == IF S = {} THEN Zero4
               ELSE LET x == CHOOSE y \in S : TRUE IN Add4(g[x], SumF(S \ {x}, g))
 
 (***************************************************************************)
-(* Aggregate: the in-memory conversations of one interface with the source *)
-(* port aggregated away (FlowLog.Aggregate / Rotate; only conversations    *)
-(* with traffic - every entry of `log` has traffic by construction).       *)
+(* Entries of a flow log: active (traffic since the last rotation) or idle *)
+(* (zero counters).  Aggregate: the in-memory conversations of one         *)
+(* interface with the source port aggregated away (FlowLog.Aggregate /     *)
+(* Rotate); only entries with traffic take part.                           *)
 (***************************************************************************)
-Aggregate(lg) == [c \in {k[1] : k \in DOMAIN lg} |-> SumF({k \in DOMAIN lg : k[1] = c}, lg)]
+Active(lg) == {k \in DOMAIN lg : lg[k] # Zero4}
+Aggregate(lg) == [c \in {k[1] : k \in Active(lg)} |-> SumF({k \in Active(lg) : k[1] = c}, lg)]
+\* FlowLog.Rotate: active entries are reset and kept, idle ones are dropped
+Rotated(lg) == [k \in Active(lg) |-> Zero4]
+\* flows that are remembered without having traffic
+IdleFlows(lg) == {k[1] : k \in DOMAIN lg} \ {k[1] : k \in Active(lg)}
+
+(***************************************************************************)
+(* Orientation.  Guess[k] is the entry a packet of conversation k without  *)
+(* orientation information creates when the capture remembers nothing of   *)
+(* the conversation: the same conversation seen with the roles swapped     *)
+(* (capturetypes.ClassifyPacketDirection: both ports ephemeral, the        *)
+(* smaller one is taken for the server's).  Conversations outside DOMAIN   *)
+(* Guess are classified as sent.  Capture.process looks for the entry of   *)
+(* the packet's own orientation and of the swapped one before classifying. *)
+(***************************************************************************)
+Guess == (<<25, 1>> :> <<26, 1>>) @@ (<<27, 1>> :> <<28, 1>>)
+GuessOf(k) == IF k \in DOMAIN Guess THEN Guess[k] ELSE k
+Entry(lg, k, kind) == IF k \in DOMAIN lg THEN k
+                      ELSE IF GuessOf(k) \in DOMAIN lg THEN GuessOf(k)
+                      ELSE IF kind = "cont" THEN GuessOf(k) ELSE k
 
 (***************************************************************************)
 (* Queries.  q = [ifs, attrs, cond]: interfaces, the attributes to group   *)
@@ -130,20 +162,21 @@ Init == /\ log = [i \in Ifaces |-> NoMap] /\ tlog = [i \in Ifaces |-> NoMap]
         /\ res = NoRes
         /\ act = [name |-> "Init"]
 
-\* Capture.process: one packet of conversation <<c, v>> on interface i
-Packet(i, c, v, d, sz) ==
-  /\ log'  = [log  EXCEPT ![i] = Bump(@, <<c, v>>, PktCounters(d, sz))]
-  /\ tlog' = [tlog EXCEPT ![i] = Bump(@, <<c, v>>, PktCounters(d, sz))]
+\* Capture.process: one packet of conversation <<c, v>> on interface i, sent by the client; kind
+\* "open" carries its orientation (TCP SYN, ...), kind "cont" does not (TCP segment without SYN)
+Packet(i, c, v, d, sz, kind) ==
+  /\ log'  = [log  EXCEPT ![i] = Bump(@, Entry(@, <<c, v>>, kind), PktCounters(d, sz))]
+  /\ tlog' = [tlog EXCEPT ![i] = Bump(@, Entry(@, <<c, v>>, kind), PktCounters(d, sz))]
   /\ seen' = [seen EXCEPT ![i] = Add4(@, PktCounters(d, sz))]
   /\ res' = NoRes
   /\ UNCHANGED <<db, tdb>>
-  /\ act' = [name |-> "Packet", i |-> i, c |-> c, v |-> v, d |-> d, sz |-> sz]
+  /\ act' = [name |-> "Packet", i |-> i, c |-> c, v |-> v, d |-> d, sz |-> sz, k |-> kind]
 
 \* Manager.performWriteout: every interface is rotated into a new block
 Writeout ==
   /\ db'  = [i \in Ifaces |-> Append(db[i], Aggregate(log[i]))]
   /\ tdb' = [i \in Ifaces |-> Append(tdb[i], Aggregate(tlog[i]))]
-  /\ log' = [i \in Ifaces |-> NoMap] /\ tlog' = [i \in Ifaces |-> NoMap]
+  /\ log' = [i \in Ifaces |-> Rotated(log[i])] /\ tlog' = [i \in Ifaces |-> Rotated(tlog[i])]
   /\ res' = NoRes
   /\ UNCHANGED seen
   /\ act' = [name |-> "Writeout"]
@@ -153,11 +186,13 @@ LiveQuery(q) ==
   /\ res' = [has |-> TRUE, stored |-> Stored(q), memory |-> Memory(q), total |-> Live(q)]
   /\ IF LiveResets
      THEN log' = [i \in Ifaces |-> IF i \in q.ifs THEN NoMap ELSE log[i]]
+     ELSE IF LiveDropsIdle
+     THEN log' = [i \in Ifaces |-> IF i \in q.ifs THEN [k \in Active(log[i]) |-> log[i][k]] ELSE log[i]]
      ELSE UNCHANGED log
   /\ UNCHANGED <<db, tlog, tdb, seen>>
   /\ act' = [name |-> "LiveQuery", q |-> q]
 
-Next == \/ \E p \in PktSet : Packet(p.i, p.c, p.v, p.d, p.sz)
+Next == \/ \E p \in PktSet : Packet(p.i, p.c, p.v, p.d, p.sz, p.k)
         \/ Writeout
         \/ \E q \in QuerySet : LiveQuery(q)
 Spec == Init /\ [][Next]_vars
@@ -167,6 +202,7 @@ Spec == Init /\ [][Next]_vars
 (***************************************************************************)
 MapRows(f) == {[f |-> c, c |-> f[c]] : c \in DOMAIN f}
 Obs == [mem |-> [i \in Ifaces |-> MapRows(Aggregate(log[i]))],
+        idle |-> [i \in Ifaces |-> IdleFlows(log[i])],
         db  |-> [i \in Ifaces |-> [k \in 1..Len(db[i]) |-> MapRows(db[i][k])]],
         res |-> IF res.has
                 THEN [has |-> TRUE, stored |-> RowsOf(res.stored), memory |-> RowsOf(res.memory),
